@@ -19,13 +19,13 @@ CO_ASSUME = [
     "futures-buffered's FuturesUnordered is modelled as a bag (which woken member is polled next is resolved by the log)",
     "the compiler's async-fn lowering and futures-lite's next() are not modelled: the harness observes the source polls, "
     "closure calls, work-future polls and drops the real code performs",
-    "sources are scripted streams through .co(); Vec::into_co_stream is exercised by the C18 probes and the crate's own tests only",
+    "sources are scripted streams through .co() and Vec::into_co_stream() (hidden source polls reconstructed by the driver)",
     "work-future ids are unique per (closure stage, item) in the harness",
 ]
 
 PROPS = {
-    "C01": dict(monitor="C01", proj="C01", modules=["C01", "C01seq", "C01g"], cfgs=ALL3, quick=900, thorough=12000,
-                gens=[(["join", "try_join", "race", "race_ok", "merge", "zip", "chain"], "exh", 0.4), (["nest"], "random", 0.35), (["nest"], "stuck", 0.1), (ALL_FIXED, "random", 1.0), (GROUPS, "random", 0.4), (GROUPS, "refill", 0.3), (CONC, "stuck", 0.3),
+    "C01": dict(monitor="C01", proj="C01", modules=["C01", "C01seq", "C01g", "C01nest", "C01live"], monitors=["C01", "LV"], cfgs=ALL3, quick=900, thorough=12000,
+                gens=[(ALL_FIXED, "drain", 0.5), (["join", "try_join", "race", "race_ok", "merge", "zip", "chain"], "exh", 0.4), (["nest"], "random", 0.35), (["nest"], "stuck", 0.1), (ALL_FIXED, "random", 1.0), (GROUPS, "random", 0.4), (GROUPS, "refill", 0.3), (CONC, "stuck", 0.3),
                       (["join", "try_join", "merge", "zip", "race", "chain"], "big", 0.05),
                       (["join", "try_join", "merge", "zip"], "waves", 0.08)],
                 assumptions=COMMON_ASSUME),
@@ -41,45 +41,45 @@ PROPS = {
                 gens=[(["join", "try_join", "merge", "zip"], "exh", 0.5), (TRACKED, "random", 1.0), (GROUPS, "random", 0.5), (GROUPS, "refill", 0.3), (TRACKED, "stuck", 0.3),
                       (["join", "try_join", "merge", "zip"], "big", 0.05)],
                 assumptions=COMMON_ASSUME),
-    "C20": dict(monitor="C20", proj="C20", modules=["C20", "C20g"], cfgs=ALL3, quick=900, thorough=12000,
-                gens=[(["join", "try_join", "race", "race_ok", "merge", "zip"], "exh", 0.4), (CONC, "random", 1.0), (GROUPS, "random", 0.5), (GROUPS, "refill", 0.5), (CONC + GROUPS, "stuck", 0.6)],
+    "C20": dict(monitors=["C20", "LV"], monitor="C20", proj="C20", modules=["C20", "C20g"], cfgs=ALL3, quick=900, thorough=12000,
+                gens=[(CONC, "drain", 0.5), (["join", "try_join", "race", "race_ok", "merge", "zip"], "exh", 0.4), (CONC, "random", 1.0), (GROUPS, "random", 0.5), (GROUPS, "refill", 0.5), (CONC + GROUPS, "stuck", 0.6)],
                 assumptions=COMMON_ASSUME),
-    "C04": dict(monitors=["C04", "NP"], monitor="C04", modules=["C04", "C01"], proj="FUN", cfgs=ALL3, quick=1500, thorough=20000,
-                gens=[(["join"], "exh", 1.0), (["join"], "random", 1.0), (["join"], "stuck", 0.3), (["join"], "panic", 0.2),
+    "C04": dict(monitors=["C04", "NP", "LV"], monitor="C04", modules=["C04", "C01"], proj="FUN", cfgs=ALL3, quick=1500, thorough=20000,
+                gens=[(["join"], "drain", 0.5), (["join"], "exh", 1.0), (["join"], "random", 1.0), (["join"], "stuck", 0.3), (["join"], "panic", 0.2),
                       (["join"], "big", 0.08), (["join"], "waves", 0.25)],
                 assumptions=COMMON_ASSUME),
-    "C05": dict(monitors=["C05", "C02", "NP"], monitor="C05", proj="FUN+C02", modules=["C05", "C02a", "C01"], cfgs=ALL3, quick=1500, thorough=20000,
-                gens=[(["try_join"], "exh", 1.0), (["try_join"], "random", 1.0), (["try_join"], "errs", 0.6), (["try_join"], "stuck", 0.2),
+    "C05": dict(monitors=["C05", "C02", "NP", "LV"], monitor="C05", proj="FUN+C02", modules=["C05", "C02a", "C01"], cfgs=ALL3, quick=1500, thorough=20000,
+                gens=[(["try_join"], "drain", 0.5), (["try_join"], "exh", 1.0), (["try_join"], "random", 1.0), (["try_join"], "errs", 0.6), (["try_join"], "stuck", 0.2),
                       (["try_join"], "panic", 0.2), (["try_join"], "big", 0.08), (["try_join"], "waves", 0.2)],
                 assumptions=COMMON_ASSUME),
-    "C06": dict(monitors=["C06", "NP"], monitor="C06", modules=["C06", "C01"], proj="C03", cfgs=ALL3, quick=1500, thorough=20000,
-                gens=[(["race"], "exh", 1.0), (["race"], "random", 1.0), (["race"], "stuck", 0.4), (["race"], "panic", 0.2),
+    "C06": dict(monitors=["C06", "NP", "LV"], monitor="C06", modules=["C06", "C01"], proj="C03", cfgs=ALL3, quick=1500, thorough=20000,
+                gens=[(["race"], "drain", 0.5), (["race"], "exh", 1.0), (["race"], "random", 1.0), (["race"], "stuck", 0.4), (["race"], "panic", 0.2),
                       (["race"], "big", 0.08)],
                 assumptions=COMMON_ASSUME + ["racing zero futures is outside C06 (the real code divides by zero in "
                                              "Indexer::iter); the generator uses n >= 1"]),
-    "C07": dict(monitors=["C07", "NP"], monitor="C07", modules=["C07", "C01"], proj="FUN", cfgs=ALL3, quick=1500, thorough=20000,
-                gens=[(["race_ok"], "exh", 1.0), (["race_ok"], "random", 1.0), (["race_ok"], "errs", 0.8), (["race_ok"], "stuck", 0.2),
+    "C07": dict(monitors=["C07", "NP", "LV"], monitor="C07", modules=["C07", "C01"], proj="FUN", cfgs=ALL3, quick=1500, thorough=20000,
+                gens=[(["race_ok"], "drain", 0.5), (["race_ok"], "exh", 1.0), (["race_ok"], "random", 1.0), (["race_ok"], "errs", 0.8), (["race_ok"], "stuck", 0.2),
                       (["race_ok"], "panic", 0.2), (["race_ok"], "big", 0.08), (["race_ok"], "waves", 0.2)],
                 assumptions=COMMON_ASSUME),
-    "C19": dict(monitors=["C19", "NP"], monitor="C19", modules=["C19", "C01seq"], proj="FUN", cfgs=ALL3, quick=1500, thorough=20000,
-                gens=[(["wait_f", "wait_s"], "random", 1.0), (["wait_f", "wait_s"], "stuck", 0.3),
+    "C19": dict(monitors=["C19", "NP", "LV"], monitor="C19", modules=["C19", "C01seq"], proj="FUN", cfgs=ALL3, quick=1500, thorough=20000,
+                gens=[(["wait_f", "wait_s"], "drain", 0.5), (["wait_f", "wait_s"], "random", 1.0), (["wait_f", "wait_s"], "stuck", 0.3),
                       (["wait_f", "wait_s"], "panic", 0.2)],
                 assumptions=COMMON_ASSUME + ["child scripts have the kind of their child (Case.kindOk): a future only "
                                              "resolves, a stream only yields/ends - enforced by Rust's types"]),
-    "C08": dict(monitors=["C08", "NP"], monitor="C08", modules=["C08", "C01"], proj="FUN", cfgs=ALL3, quick=2500, thorough=30000,
-                gens=[(["merge"], "exh", 1.0), (["merge"], "random", 1.0), (["merge"], "fair", 0.4), (["merge"], "stuck", 0.2),
+    "C08": dict(monitors=["C08", "NP", "LV"], monitor="C08", modules=["C08", "C01"], proj="FUN", cfgs=ALL3, quick=2500, thorough=30000,
+                gens=[(["merge"], "drain", 0.5), (["merge"], "exh", 1.0), (["merge"], "random", 1.0), (["merge"], "fair", 0.4), (["merge"], "stuck", 0.2),
                       (["merge"], "panic", 0.2), (["merge"], "big", 0.08), (["merge"], "waves", 0.1)],
                 assumptions=COMMON_ASSUME),
-    "C09": dict(monitors=["C09", "C02", "NP"], monitor="C09", proj="FUN+C02", modules=["C09", "C02a", "C01"], cfgs=ALL3, quick=2500, thorough=30000,
-                gens=[(["zip"], "exh", 1.0), (["zip"], "random", 1.0), (["zip"], "fair", 0.4), (["zip"], "stuck", 0.2),
+    "C09": dict(monitors=["C09", "C02", "NP", "LV"], monitor="C09", proj="FUN+C02", modules=["C09", "C02a", "C01"], cfgs=ALL3, quick=2500, thorough=30000,
+                gens=[(["zip"], "drain", 0.5), (["zip"], "exh", 1.0), (["zip"], "random", 1.0), (["zip"], "fair", 0.4), (["zip"], "stuck", 0.2),
                       (["zip"], "panic", 0.2), (["zip"], "big", 0.08), (["zip"], "waves", 0.1)],
                 assumptions=COMMON_ASSUME + ["zip over zero inputs is outside C09"]),
-    "C10": dict(monitors=["C10", "C03", "NP"], monitor="C10", modules=["C10", "C01seq"], proj="FUN", cfgs=ALL3, quick=2500, thorough=30000,
-                gens=[(["chain"], "exh", 1.0), (["chain"], "random", 1.0), (["chain"], "fair", 0.4), (["chain"], "stuck", 0.2),
+    "C10": dict(monitors=["C10", "C03", "NP", "LV"], monitor="C10", modules=["C10", "C01seq"], proj="FUN", cfgs=ALL3, quick=2500, thorough=30000,
+                gens=[(["chain"], "drain", 0.5), (["chain"], "exh", 1.0), (["chain"], "random", 1.0), (["chain"], "fair", 0.4), (["chain"], "stuck", 0.2),
                       (["chain"], "panic", 0.2), (["chain"], "big", 0.08)],
                 assumptions=COMMON_ASSUME),
-    "C17": dict(monitors=["C17", "NP"], monitor="C17", modules=["C17", "C01"], proj="FUN", cfgs=ALL3, quick=2500, thorough=30000,
-                gens=[(["merge"], "exh", 0.5), (["merge"], "fair", 1.0), (["merge"], "random", 0.5), (["merge"], "stuck", 0.2)],
+    "C17": dict(monitors=["C17", "NP", "LV"], monitor="C17", modules=["C17", "C01"], proj="FUN", cfgs=ALL3, quick=2500, thorough=30000,
+                gens=[(["merge"], "drain", 0.3), (["merge"], "exh", 0.5), (["merge"], "fair", 1.0), (["merge"], "random", 0.5), (["merge"], "stuck", 0.2)],
                 assumptions=COMMON_ASSUME),
     "C11": dict(monitors=["C11", "NP"], monitor="C11", modules=["C11", "C01g"], proj="GRP", cfgs=["std", "alloc"], quick=3000, thorough=40000,
                 gens=[(["fgroup"], "random", 1.0), (["fgroup"], "big", 0.5), (["fgroup"], "stuck", 0.3),
